@@ -1,5 +1,6 @@
 import SshuttleModel.Code.Tunnel
 import SshuttleModel.Spec.Quiet
+import SshuttleModel.Spec.Measure
 open Sshuttle Sshuttle.Mux Sshuttle.Wrap Sshuttle.Tunnel
 
 def digest (b : Bytes) : String :=
@@ -30,7 +31,7 @@ def showMux (m : MuxL) : String :=
   s!"n{m.out.length} full{m.fullness} too{b01 m.tooFull} last={match m.out.getLast? with | some f => showFrame f | none => "-"}"
 
 def showWorld (w : World) : List String :=
-  let hd := s!"died={match w.died with | some d => d | none => "-"} chani={w.chani} cm[{showMux w.cm}] sm[{showMux w.sm}]"
+  let hd := s!"died={match w.died with | some d => d | none => "-"} chani={w.chani} cm[{showMux w.cm}] sm[{showMux w.sm}] mu={worldMu w}"
   let fl := (List.range w.flows.length).zip w.flows |>.map fun (i, f) =>
     s!" f{i} ch{f.chan} C:{showProxy f.c} S:{showProxy f.s} app:{showESock f.app} dst:{showESock f.dst}"
   [hd ++ String.join fl]
